@@ -25,7 +25,9 @@ asyncio runs a task without interruption between two awaits, so the atomic steps
   `register`   : the engine registers again: fresh engine data.  `resetOnRegister = true`: its method is
                  `Method.empty()` at version 0 — the code before fixes/C31-version-survives-reregistration.diff;
                  `resetOnRegister = false`: the version continues one above the last version the engine had.
-Which system the code is (`Cfg`) is measured on the real handler by the harness on every run (two probes); the AST
+`precheck`: the handler refuses a save whose base is not the current version already in front of the lock (a harmless
+fast path; the check under the lock is the one that counts).
+Which system the code is (`Cfg`) is measured on the real handler by the harness on every run (three probes); the AST
 translator harness/translators/save_lock.py independently says whether one lock spans check, round trip and commit
 (`OPM.Gen.SaveLock.lockAcrossAwait`, used by the theorem `code_holds_lock`).
 
@@ -51,6 +53,7 @@ deriving Repr, DecidableEq
 structure Cfg where
   locked : Bool := true
   resetOnRegister : Bool := false
+  precheck : Bool := false     -- an additional version check in front of the lock (fast refusal of stale saves)
 deriving Repr, DecidableEq
 
 structure State where
@@ -95,7 +98,9 @@ def step (c : Cfg) (s : State) : Ev → Option State
   | .start id base =>
     if known s id then none
     else if !s.registered then some { s with results := s.results ++ [(id, .rejected)] }   -- route: 404
-    else if c.locked && !s.awaiting.isEmpty then some { s with waiters := s.waiters ++ [⟨id, base⟩] }
+    else if c.locked && !s.awaiting.isEmpty then
+      if c.precheck && base ≠ s.version then some { s with results := s.results ++ [(id, .rejected)] }
+      else some { s with waiters := s.waiters ++ [⟨id, base⟩] }
     else some (enter s ⟨id, base⟩)
   | .reply id ok =>
     match s.awaiting.find? (·.id == id) with
